@@ -19,7 +19,7 @@ MANIFEST_ENTRY = {
 }
 
 
-def tasks(tier, seed):
+def _tasks_core(tier, seed):
     return [
         dict(kind="custom", module="props.c04_tasks", fn="setup_clauses"),
         dict(kind="custom", module="props.c04_tasks", fn="installer_scan"),      # index guards (a table on other dates is refused) and the pre-start row of each frame
@@ -73,3 +73,12 @@ def known_witness(f):
     with Scratch() as sc:
         d = sc.run_json(KNOWN_WITNESS_SRC, timeout=120)
     return bool(d.get("still"))
+
+
+# functions under contract elsewhere whose obligations carry this property's tag as well (found by tools/tagaudit.py): run here too, so that a change
+# which breaks one of them is reported by this check and not only by a neighbour
+def tasks(tier, seed):
+    return _tasks_core(tier, seed) + [
+        func("bt.algos.RunPeriod.__call__"),
+        func("bt.backtest.Backtest.run"),
+    ]
